@@ -24,6 +24,10 @@ theorem template_header : Generated.Template.header = "//go:build ignore\n// +bu
 /-- the template text itself -/
 theorem template_text : Generated.Template.tplString = Bridge.Expected.tplString := rfl
 
+theorem shape_sanitizeSynopsis : Generated.Shapes.parse_sanitizeSynopsis = Bridge.Expected.parse_sanitizeSynopsis := rfl
+theorem shape_toOneLine : Generated.Shapes.parse_toOneLine = Bridge.Expected.parse_toOneLine := rfl
+theorem shape_getPackage : Generated.Shapes.parse_getPackage = Bridge.Expected.parse_getPackage := rfl
+theorem shape_hasVoidReturn : Generated.Shapes.parse_hasVoidReturn = Bridge.Expected.parse_hasVoidReturn := rfl
 theorem shape_TargetName : Generated.Shapes.parse_Function_TargetName = Bridge.Expected.parse_Function_TargetName := rfl
 theorem shape_ID : Generated.Shapes.parse_Function_ID = Bridge.Expected.parse_Function_ID := rfl
 theorem shape_ExecCode : Generated.Shapes.parse_Function_ExecCode = Bridge.Expected.parse_Function_ExecCode := rfl
